@@ -399,3 +399,173 @@ Theorem C18_model_is_source_cli_calculate_scores : forall (Scr Pl Th Dm Sc H : T
   = Cli.cli_calculate_scores L mix a.
 Proof. exact C06SourceCli.src_cli_calculate_scores_is_model. Qed.
 Print Assumptions C18_model_is_source_cli_calculate_scores.
+
+(* ---- the argument-handling glue of the command-line wrappers is what the source says NOW ----
+   How command-line strings become the class and the parameter dict that main() instantiates.  Re-translated on every run
+   (harness/py2gal.py, configurations ARGS_* of harness/src_functions.py -> Generated/SrcCliArgs.v): the WHOLE functions
+   str_to_bool, cast_dict_to_type and KVAppendAction.__call__ of cli/argument_parsing.py, get_class / create_instance /
+   get_required_init_args_with_annotations of introspection.py, the WHOLE function get_args of cli/calculate_scores.py
+   (parser.parse_args() is the primitive that yields the raw namespace) and main() once more as a whole command, in which
+   get_args() is the translated get_args and `args.scorer_cls( **args.scorer_params)` is `construct` on the two namespace
+   attributes.  Model: the last part of Model/Cli.v (a str = the list of its code points; dicts = insertion-ordered association
+   lists; `pyprims` = s.lower(), int(s), float(s), the call of another annotation; `pyworld` = importlib / pkgutil / inspect).
+   Every statement holds for EVERY record of primitives. *)
+From Batchie Require Proofs.C18SourceArgs Proofs.C18Args Proofs.C18SourceIntrospect Generated.SrcCliArgs.
+
+Theorem C18_model_is_source_cli_args_str_to_bool : forall (F O : Type) (P : Cli.pyprims F O) (s : Cli.str),
+  SrcCliArgs.src_str_to_bool F O P s = Cli.str_to_bool P s.
+Proof. exact (@C18SourceArgs.src_str_to_bool_is_model). Qed.
+Print Assumptions C18_model_is_source_cli_args_str_to_bool.
+
+Theorem C18_model_is_source_cli_args_cast_dict_to_type : forall (F O : Type) (P : Cli.pyprims F O)
+  (k_v_string : list (Cli.str * Cli.str)) (k_v_types : list (Cli.str * Cli.ann)),
+  SrcCliArgs.src_cast_dict_to_type F O P k_v_string k_v_types = Cli.cast_dict P k_v_string k_v_types.
+Proof. exact C18SourceArgs.src_cast_dict_is_model. Qed.
+Print Assumptions C18_model_is_source_cli_args_cast_dict_to_type.
+
+(* `dest` = the namespace seen at the action's destination attribute (None before the first occurrence of the option) *)
+Theorem C18_model_is_source_cli_args_kv_append_action : forall (dest : option (list (Cli.str * Cli.str))) (values : list Cli.str),
+  SrcCliArgs.src_kv_append dest values = Cli.kv_append dest values.
+Proof. exact C18SourceArgs.src_kv_append_is_model. Qed.
+Print Assumptions C18_model_is_source_cli_args_kv_append_action.
+
+Theorem C18_model_is_source_cli_args_get_args : forall (Cls F O : Type) (I : Cli.introspect Cls) (P : Cli.pyprims F O)
+  (raw : Cli.cs_ns Cls F O),
+  SrcCliArgs.src_cs_get_args Cls F O I P raw = Cli.cs_get_args I P raw.
+Proof. exact C18SourceArgs.src_cs_get_args_is_model. Qed.
+Print Assumptions C18_model_is_source_cli_args_get_args.
+
+(* the whole command: cs_mk_scorer of C18_model_is_source_cli_calculate_scores IS the class found under the name --scorer,
+   instantiated with the --scorer-param values cast by the annotations of its required __init__ arguments *)
+Theorem C18_model_is_source_cli_args_calculate_scores :
+  forall (Cls F O : Type) (I : Cli.introspect Cls) (P : Cli.pyprims F O) (Scr Pl Th Dm Sc H : Type)
+         (construct : Cls -> list (Cli.str * Cli.pval F O) -> result Sc) (L : Cli.cs_lib Scr Pl Th Dm Sc H) (mix : Z -> Z)
+         (raw : Cli.cs_ns Cls F O),
+  SrcCliArgs.src_cli_calculate_scores_cmd Cls F O I P Scr Pl Th Dm Sc H construct L mix raw
+  = (dor cp <- Cli.resolve I P Cli.BScorer (Cli.cs_scorer raw) (Cli.cs_scorer_param raw);
+     Cli.cli_calculate_scores (Cli.cs_with_mk L (Cli.instantiate construct (fst cp) (snd cp))) mix (Cli.cs_plain raw)).
+Proof. exact C18SourceArgs.src_cli_calculate_scores_cmd_spelled. Qed.
+Print Assumptions C18_model_is_source_cli_args_calculate_scores.
+
+Theorem C18_model_is_source_cli_args_get_class : forall (Mod Obj : Type) (W : Cli.pyworld Mod Obj)
+  (package_name class_name : Cli.str) (base : Cli.base_class),
+  SrcCliArgs.src_get_class Mod Obj W package_name class_name base = Cli.get_class W package_name class_name base.
+Proof. exact (@C18SourceIntrospect.src_get_class_is_model). Qed.
+Print Assumptions C18_model_is_source_cli_args_get_class.
+
+Theorem C18_model_is_source_cli_args_create_instance : forall (Mod Obj : Type) (W : Cli.pyworld Mod Obj) (V Inst : Type)
+  (construct : Obj -> V -> result Inst) (package_name class_name : Cli.str) (base : Cli.base_class) (kwargs : V),
+  SrcCliArgs.src_create_instance Mod Obj W V Inst construct package_name class_name base kwargs
+  = Cli.create_instance W construct package_name class_name base kwargs.
+Proof. exact (@C18SourceIntrospect.src_create_instance_is_model). Qed.
+Print Assumptions C18_model_is_source_cli_args_create_instance.
+
+Theorem C18_model_is_source_cli_args_get_required_init_args_with_annotations :
+  forall (Mod Obj : Type) (W : Cli.pyworld Mod Obj) (c : option Obj),
+  SrcCliArgs.src_get_required_init_args Mod Obj W c = Cli.required_args W c.
+Proof. exact (@C18SourceIntrospect.src_get_required_init_args_is_model). Qed.
+Print Assumptions C18_model_is_source_cli_args_get_required_init_args_with_annotations.
+
+(* everything from the source: the introspection record made of the translated get_class / get_required_init_args... *)
+Theorem C18_model_is_source_cli_args_calculate_scores_world :
+  forall (Mod Obj F O : Type) (W : Cli.pyworld Mod Obj) (P : Cli.pyprims F O) (Scr Pl Th Dm Sc H : Type)
+         (construct : Obj -> list (Cli.str * Cli.pval F O) -> result Sc) (L : Cli.cs_lib Scr Pl Th Dm Sc H) (mix : Z -> Z)
+         (raw : Cli.cs_ns Obj F O),
+  SrcCliArgs.src_cli_calculate_scores_cmd Obj F O (C18SourceIntrospect.introspect_src W) P Scr Pl Th Dm Sc H construct L mix raw
+  = Cli.cli_calculate_scores_cmd (Cli.introspect_of W) P construct L mix raw.
+Proof. exact C18SourceIntrospect.src_cli_calculate_scores_cmd_world. Qed.
+Print Assumptions C18_model_is_source_cli_args_calculate_scores_world.
+
+(* -- what the linked models say (hence the source): booleans -- *)
+(* an unknown spelling raises; the ten known ones (after lower()) give their value; 'no' & co. can never read as True *)
+Theorem C18_cli_args_unknown_bool_raises : forall (F O : Type) (P : Cli.pyprims F O) (s : Cli.str),
+  ~ In (Cli.p_lower P s) Cli.true_words -> ~ In (Cli.p_lower P s) Cli.false_words -> Cli.str_to_bool P s = Err 22.
+Proof. exact (@C18Args.str_to_bool_unknown). Qed.
+Print Assumptions C18_cli_args_unknown_bool_raises.
+
+Theorem C18_cli_args_bool_spellings : forall (F O : Type) (P : Cli.pyprims F O) (s : Cli.str),
+  (In (Cli.p_lower P s) Cli.true_words -> Cli.str_to_bool P s = Ok true) /\
+  (In (Cli.p_lower P s) Cli.false_words -> Cli.str_to_bool P s = Ok false) /\
+  (forall b, Cli.str_to_bool P s = Ok b -> In (Cli.p_lower P s) (if b then Cli.true_words else Cli.false_words)).
+Proof. exact (@C18Args.bool_spellings). Qed.
+Print Assumptions C18_cli_args_bool_spellings.
+
+(* -- the converter table, entry by entry: bool through str_to_bool (NOT bool(s)), int / float / str through the builtin,
+      an unannotated argument cannot be given (TypeError), any other annotation is called on the string -- *)
+Theorem C18_cli_args_converter_table : forall (F O : Type) (P : Cli.pyprims F O) (v : Cli.str),
+  Cli.convert P Cli.ABool v = (dor b <- Cli.str_to_bool P v; Ok (Cli.VBool b)) /\
+  Cli.convert P Cli.AInt v = (dor z <- Cli.p_int P v; Ok (Cli.VInt z)) /\
+  Cli.convert P Cli.AFloat v = (dor f <- Cli.p_float P v; Ok (Cli.VFloat f)) /\
+  Cli.convert P Cli.AStr v = Ok (Cli.VStr v) /\
+  Cli.convert P Cli.ANone v = Err 26 /\
+  (forall n, Cli.convert P (Cli.AOther n) v = (dor o <- Cli.p_call_other P n v; Ok (Cli.VOther o))).
+Proof. exact (@C18Args.converter_table). Qed.
+Print Assumptions C18_cli_args_converter_table.
+
+(* -- cast_dict_to_type: exactly the typed values, in the dict's order; the first failing item's exception (KeyError 25 for a KEY
+      that is not a required argument, else the converter's) -- *)
+Theorem C18_cli_args_cast_exact : forall (F O : Type) (P : Cli.pyprims F O) (d : list (Cli.str * Cli.str))
+  (types : list (Cli.str * Cli.ann)),
+  NoDup (map fst d) -> Cli.cast_dict P d types = res_map_all (C18Args.cast_item P types) d.
+Proof. exact (@C18Args.cast_dict_exact). Qed.
+Print Assumptions C18_cli_args_cast_exact.
+
+(* -- KVAppendAction on one word: KEY=VALUE without further '=' is stored (a repeated KEY keeps its place, the later VALUE
+      wins); a word without '=' is an ArgumentError; and - maxsplit is 2, not 1 - so is a word whose VALUE contains '=' -- *)
+Theorem C18_cli_args_kv_word : forall (dest : option (list (Cli.str * Cli.str))) (k v w : Cli.str),
+  (~ In 61 k -> ~ In 61 v ->
+   Cli.kv_append dest [k ++ 61 :: v] = Ok (Some (kdict_set PyRt.str_eqb (opt_or_empty dest) k v))) /\
+  (~ In 61 w -> Cli.kv_append dest [w] = Err 21) /\
+  (~ In 61 k -> In 61 v -> Cli.kv_append dest [k ++ 61 :: v] = Err 21).
+Proof. exact C18Args.kv_word_cases. Qed.
+Print Assumptions C18_cli_args_kv_word.
+
+(* -- end to end: the words KEY=VALUE ... of one option (distinct keys, no '=' inside keys or values), accumulated by the action
+      in command-line order and cast by get_args(), are exactly the typed values, in command-line order -- *)
+Theorem C18_cli_args_words_cast_exactly : forall (F O : Type) (P : Cli.pyprims F O) (kvs : list (Cli.str * Cli.str))
+  (types : list (Cli.str * Cli.ann)),
+  (forall kv, In kv kvs -> ~ In 61 (fst kv) /\ ~ In 61 (snd kv)) -> NoDup (map fst kvs) ->
+  (dor d <- Cli.kv_parse None (map C18Args.kv_word kvs); Cli.cast_params P d types)
+  = res_map_all (C18Args.cast_item P types) kvs.
+Proof. exact (@C18Args.words_cast_exactly). Qed.
+Print Assumptions C18_cli_args_words_cast_exactly.
+
+(* -- class lookup: what get_class returns is truthy and a subclass of the requested base class; a name no module of the package
+      defines ends get_args() with TypeError "The given object is not a class." (29); the required-argument table never holds
+      the empty marker nor "self" -- *)
+Theorem C18_cli_args_get_class_subclass : forall (Mod Obj : Type) (W : Cli.pyworld Mod Obj) (package_name class_name : Cli.str)
+  (base : Cli.base_class) (o : Obj),
+  Cli.get_class W package_name class_name base = Ok (Some o) ->
+  Cli.w_truthy W o = true /\ Cli.w_issubclass W o base = Ok true.
+Proof. exact (@C18SourceIntrospect.get_class_some). Qed.
+Print Assumptions C18_cli_args_get_class_subclass.
+
+Theorem C18_cli_args_unknown_class_is_type_error : forall (Mod Obj : Type) (W : Cli.pyworld Mod Obj) (F O : Type)
+  (P : Cli.pyprims F O) (base : Cli.base_class) (name : Cli.str) (param : option (list (Cli.str * Cli.str))),
+  Cli.get_class W Cli.s_batchie name base = Ok None -> Cli.resolve (Cli.introspect_of W) P base name param = Err 29.
+Proof. exact (@C18SourceIntrospect.unknown_class_is_type_error). Qed.
+Print Assumptions C18_cli_args_unknown_class_is_type_error.
+
+Theorem C18_cli_args_required_args_table : forall (Mod Obj : Type) (W : Cli.pyworld Mod Obj) (c : option Obj)
+  (req : list (Cli.str * Cli.ann)),
+  Cli.required_args W c = Ok req -> forall k t, In (k, t) req -> t <> Cli.AEmpty /\ k <> Cli.s_self.
+Proof. exact (@C18SourceIntrospect.required_args_no_empty). Qed.
+Print Assumptions C18_cli_args_required_args_table.
+
+(* concrete instances (ASCII lower-casing; int() of one digit; no floats / other annotations): "k=3" "flag=No" are cast to
+   k = 3 (int), flag = False (bool); "flag=Nope" raises (22); "k=a=b" is refused by the action (21); an optional argument
+   (not in the required table) is a KeyError (25) *)
+Definition ex_lower (s : Cli.str) : Cli.str := map (fun c => if (65 <=? c) && (c <=? 90) then c + 32 else c) s.
+Definition ex_int (s : Cli.str) : result Z :=
+  match s with [c] => if (48 <=? c) && (c <=? 57) then Ok (c - 48) else Err 27 | _ => Err 27 end.
+Definition ex_prims : Cli.pyprims unit unit :=
+  Cli.mk_pyprims ex_lower ex_int (fun _ => Err 28) (fun _ _ => Err 26).
+Definition ex_types : list (Cli.str * Cli.ann) := [([107], Cli.AInt); ([102; 108; 97; 103], Cli.ABool)].
+Example C18_cli_args_example :
+  (dor d <- Cli.kv_parse None [[107; 61; 51]; [102; 108; 97; 103; 61; 78; 111]]; Cli.cast_params ex_prims d ex_types)
+  = Ok [([107], Cli.VInt 3); ([102; 108; 97; 103], Cli.VBool false)] /\
+  (dor d <- Cli.kv_parse None [[102; 108; 97; 103; 61; 78; 111; 112; 101]]; Cli.cast_params ex_prims d ex_types) = Err 22 /\
+  Cli.kv_parse None [[107; 61; 97; 61; 98]] = Err 21 /\
+  (dor d <- Cli.kv_parse None [[122; 61; 51]]; Cli.cast_params ex_prims d ex_types) = Err 25 /\
+  SrcCliArgs.src_str_to_bool unit unit ex_prims [89; 69; 83] = Ok true.
+Proof. vm_compute. repeat split; reflexivity. Qed.
